@@ -296,3 +296,36 @@ pub fn run_thin_cov(l: &[i128]) -> Vec<i128> {
     }
     vec![changed, bad, first[0], first[1], first[2], first[3], first[4], first[5]]
 }
+
+
+/// The same partially covered pixel reached through different blit primitives, in every colour space:
+/// args: colorspace mode hq r g b a  dr dg db da  frac_milli width
+/// A 48 x 5 pixmap filled with the destination colour; one anti-aliased fill_rect(3, 2 + frac, 3 + width, 3): row 2 is covered
+/// by (1 - frac); with width 1 the row is a single column (blit_v), wider rows are runs (blit_anti_h).
+/// -> the r g b a of pixel (3, 2)
+pub fn run_cs_span(l: &[i128]) -> Vec<i128> {
+    if l.len() < 13 {
+        return vec![-3];
+    }
+    use tiny_skia::{ColorSpace, Rect, Transform, PremultipliedColorU8};
+    let cs = [ColorSpace::Linear, ColorSpace::Gamma2, ColorSpace::SimpleSRGB, ColorSpace::FullSRGBGamma][(l[0] as usize) % 4];
+    let dst = match PremultipliedColorU8::from_rgba(l[7] as u8, l[8] as u8, l[9] as u8, l[10] as u8) {
+        Some(c) => c,
+        None => return vec![-3],
+    };
+    let mut paint = Paint::default();
+    paint.set_color_rgba8(l[3] as u8, l[4] as u8, l[5] as u8, l[6] as u8);
+    paint.blend_mode = MODES[(l[1] as usize) % 29];
+    paint.colorspace = cs;
+    paint.force_hq_pipeline = l[2] != 0;
+    paint.anti_alias = true;
+    let mut pm = Pixmap::new(48, 5).unwrap();
+    for p in pm.pixels_mut() {
+        *p = dst;
+    }
+    let fr = (l[11] as f32 / 1000.0).max(0.0).min(0.95);
+    let w = (l[12] as f32).max(1.0).min(44.0);
+    pm.fill_rect(Rect::from_ltrb(3.0, 2.0 + fr, 3.0 + w, 3.0).unwrap(), &paint, Transform::identity(), None);
+    let p = pm.pixel(3, 2).unwrap();
+    vec![p.red() as i128, p.green() as i128, p.blue() as i128, p.alpha() as i128]
+}
